@@ -99,7 +99,7 @@ theorem noteEvent_ext (k s ev) : Rel extPre (noteEvent k s ev) := by
   unfold noteEvent
   ext_walk []
 
-theorem restageRetry_ext (k idx) : Rel extPre (restageRetry k idx) := by
+theorem restageRetry_ext (k idx o) : Rel extPre (restageRetry k idx o) := by
   unfold restageRetry
   ext_walk []
 
@@ -120,7 +120,7 @@ theorem updateTaskStateAux_ext (fuel k ev) : Rel extPre (updateTaskStateAux E fu
   | zero => unfold updateTaskStateAux; exact Rel.throw _
   | succ n ih =>
     unfold updateTaskStateAux
-    ext_walk [ih _ _, ensureRecord_ext E _ _ _ _, noteEvent_ext _ _ _, restageRetry_ext _ _,
+    ext_walk [ih _ _, ensureRecord_ext E _ _ _ _, noteEvent_ext _ _ _, restageRetry_ext _ _ _,
       completedRetryDecision_ext E _ _ _ _ _, evalTransitions_ext E _ _ _ _, markTermIfCompleted_ext _]
 
 theorem updateTaskState_ext (k ev) : Rel extPre (updateTaskState E k ev) := updateTaskStateAux_ext E 3 k ev
